@@ -81,3 +81,254 @@ Proof.
     cbn [forallb]. unfold ev_box_or_below. rewrite !Z.eqb_refl. cbn. rewrite orb_true_r. reflexivity.
   - intros r c Hrr Hcc. rewrite Eevs. rewrite lastcov_app_none by reflexivity. apply Hcont; lia.
 Qed.
+
+Section Old.
+Variables W H lm : Z.
+Variable g : glyph.                     (* the old API pads with spaces *)
+Variables w h pl pt pr pb : Z.
+Hypothesis Hpl : 0 <= pl.
+Hypothesis Hpt : 0 <= pt.
+Hypothesis Hpr : 0 <= pr.
+Hypothesis Hpb : 0 <= pb.
+Hypothesis Hlm : 0 <= lm.
+Let pw := pl + w + pr.
+Let ph := pt + h + pb.
+Hypothesis HW : lm + pw <= W.
+Hypothesis HH : ph <= H.
+Let d := (pl, pt, pr, pb).
+Let fill := Some g.
+Let PLof := fun ls : list (list tok) => pad_lines fill d w ls.
+Let Pof := fun ls : list (list tok) => pad fill d w (joinlf ls).
+
+(** what [_clear_frame()] may do, at the top-left of the box *)
+Definition ClearBox (clr : list tok) : Prop :=
+  forall s r c, okat s r c ->
+    exists evs, exec lm s clr = mk r c adefault s evs
+                /\ forallb (ev_inside r c ph pw) evs = true.
+
+Lemma old_frame_exec ls s r0 :
+  LinesRect all_cells w h ls -> okat s r0 lm ->
+  exec lm s (old_frame ph (Pof ls)) =
+    mk r0 lm adefault s (jl_evs lm r0 (PLof ls) ++ goto_evs lm (r0 + ph - 1) (ph - 1) 0)
+  /\ forallb (ev_inside r0 lm ph pw) (jl_evs lm r0 (PLof ls) ++ goto_evs lm (r0 + ph - 1) (ph - 1) 0) = true
+  /\ (forall r c, r0 <= r < r0 + ph -> lm <= c < lm + pw -> covered (jl_evs lm r0 (PLof ls)) r c = true).
+Proof.
+  intros HLR Hok. assert (Hcl : clean s) by apply Hok.
+  pose proof (lr_w _ _ _ _ HLR) as Hw.
+  assert (Hh : 0 < h).
+  { pose proof (lr_len _ _ _ _ HLR) as Hlen. pose proof (lr_ne _ _ _ _ HLR).
+    destruct ls; [congruence|cbn [length] in Hlen; lia]. }
+  destruct (first_box lm fill w h pl pt pr pb Hpl Hpt Hpr Hpb ls HLR s r0 Hok) as [E1 Hin1].
+  fold d pw ph in E1, Hin1. fold (Pof ls) (PLof ls) in E1, Hin1.
+  split; [|split].
+  - unfold old_frame. rewrite exec_app, E1.
+    replace ([TCR] ++ cuu (ph - 1)) with ([TCR] ++ cuu (ph - 1) ++ cuf 0) by (cbn; rewrite app_nil_r; reflexivity).
+    rewrite (exec_goto lm _ (r0 + ph - 1) (lm + pw) (ph - 1) 0); [|apply okat_mk, Hcl|unfold ph; lia|lia].
+    rewrite mk_mk. f_equal; lia.
+  - rewrite forallb_app, Hin1. apply goto_inside; unfold ph, pw in *; lia.
+  - intros r c Hr Hc. rewrite covered_jl. unfold PLof, d.
+    eapply (flat_covers_need _ pw ph); [apply (PL_lr fill w h pl pt pr pb ls HLR Hpl Hpt Hpr Hpb)|exact Hr|exact Hc|].
+    unfold need', fill, all_cells. destruct (_ && _); reflexivity.
+Qed.
+
+Definition old_later (rest : list (list tok * list (list tok))) : list tok :=
+  concat (map (fun cl => fst cl ++ old_frame ph (Pof (snd cl))) rest).
+
+(** the invariant of the old animation loop: after every frame the cursor is back at the
+    top-left of the box, every frame redraws the whole box, nothing outside is touched *)
+Theorem old_later_inv r0 : forall rest s,
+  Forall (fun cl => ClearBox (fst cl) /\ LinesRect all_cells w h (snd cl)) rest ->
+  okat s r0 lm ->
+  exists EV,
+    exec lm s (old_later rest) = mk r0 lm adefault s EV
+    /\ forallb (ev_inside r0 lm ph pw) EV = true
+    /\ (forall r c acc, r0 <= r < r0 + ph -> lm <= c < lm + pw ->
+          lastcov_from acc EV r c =
+          match lastopt rest with
+          | None => acc
+          | Some cl => lastcov (jl_evs lm r0 (PLof (snd cl))) r c
+          end).
+Proof.
+  induction rest as [|[clr ls] rest IH]; intros s HF Hok.
+  - exists []. cbn. split; [destruct Hok as (_ & Hs & Hr & Hc); rewrite <- Hs, <- Hr, <- Hc; symmetry; apply mk_id|].
+    split; reflexivity.
+  - inversion HF as [|? ? [HC HLR] HF']; subst. cbn [fst snd] in *.
+    assert (Hcl : clean s) by apply Hok.
+    destruct (HC s r0 lm Hok) as (Ec & E1 & HinC).
+    destruct (old_frame_exec ls _ r0 HLR (okat_mk _ _ _ Ec Hcl)) as (E2 & Hin2 & Hcov2).
+    set (EF := jl_evs lm r0 (PLof ls) ++ goto_evs lm (r0 + ph - 1) (ph - 1) 0) in *.
+    destruct (IH (mk r0 lm adefault s (Ec ++ EF)) HF' (okat_mk _ _ _ _ Hcl)) as (EV & E3 & Hin3 & Hlast3).
+    exists ((Ec ++ EF) ++ EV). split; [|split].
+    + unfold old_later in *. cbn [map concat fst snd]. rewrite <- app_assoc, exec_app, E1, exec_app, E2.
+      rewrite mk_mk, E3, mk_mk. reflexivity.
+    + rewrite !forallb_app, !andb_true_iff in *. repeat split; try assumption; apply Hin2.
+    + intros r c acc Hr Hc. rewrite lastcov_from_app, (Hlast3 r c _ Hr Hc).
+      destruct rest as [|cl2 rest'].
+      2:{ change (lastopt ((clr, ls) :: cl2 :: rest')) with (lastopt (cl2 :: rest')).
+          destruct (lastopt (cl2 :: rest')) eqn:El; [reflexivity|].
+          apply lastopt_none in El. discriminate. }
+      cbn [lastopt snd]. unfold EF. rewrite !lastcov_from_app.
+      rewrite (lastcov_from_none _ (goto_evs _ _ _ _)) by apply goto_nocover.
+      apply lastcov_from_cov, Hcov2; assumption.
+Qed.
+
+Variable ls0 : list (list tok).
+Variable rest : list (list tok * list (list tok)).
+Hypothesis HLR0 : LinesRect all_cells w h ls0.
+Hypothesis HD0 : forall ln, In ln ls0 -> Downward ln.
+Hypothesis HFr : Forall (fun cl => ClearBox (fst cl) /\ LinesRect all_cells w h (snd cl)) rest.
+
+Definition old_last : list (list tok) :=
+  match lastopt rest with Some cl => snd cl | None => ls0 end.
+
+Lemma old_last_lr : LinesRect all_cells w h old_last.
+Proof.
+  unfold old_last. destruct (lastopt rest) eqn:E; [|exact HLR0].
+  apply lastopt_in in E. exact (proj2 (proj1 (Forall_forall _ _) HFr _ E)).
+Qed.
+
+Definition old_body : list tok := old_frame ph (Pof ls0) ++ old_later rest ++ cud (ph - 1).
+
+(** MAIN (old API, animation; generic over what is drawn first and the clearing before
+    each later frame) *)
+Theorem old_animate_gen t0 top0 tty :
+  okat t0 (row t0) lm -> top0 <= row t0 < top0 + H ->
+  DrawFinal W H lm top0 t0 tty pw ph (Pof old_last)
+            (opt tty THide ++ old_body ++ [TSgr0] ++ opt tty TShow ++ [TLF]).
+Proof.
+  intros Hok Htop. set (r0 := row t0) in *.
+  pose proof (lr_w _ _ _ _ HLR0) as Hw.
+  assert (Hh : 0 < h).
+  { pose proof (lr_len _ _ _ _ HLR0) as Hlen. pose proof (lr_ne _ _ _ _ HLR0).
+    destruct ls0; [congruence|cbn [length] in Hlen; lia]. }
+  assert (Eref : exec_evs lm t0 (Pof old_last) = jl_evs lm r0 (PLof old_last)).
+  { destruct (first_box lm fill w h pl pt pr pb Hpl Hpt Hpr Hpb _ old_last_lr t0 r0 Hok) as [E _].
+    exact (exec_mk_evs _ _ _ _ _ _ _ E). }
+  apply wrap_old with (r0 := r0); try assumption; try (unfold ph, pw in *; lia).
+  intros s0 Hok0. assert (Hcl : clean s0) by apply Hok0.
+  destruct (old_frame_exec ls0 s0 r0 HLR0 Hok0) as (E1 & Hin1 & Hcov1).
+  set (EF := jl_evs lm r0 (PLof ls0) ++ goto_evs lm (r0 + ph - 1) (ph - 1) 0) in *.
+  set (s1 := mk r0 lm adefault s0 EF) in *.
+  destruct (old_later_inv r0 rest s1 HFr (okat_mk _ _ _ _ Hcl)) as (EV & E2 & Hin2 & Hlast2).
+  set (s2 := mk r0 lm adefault s1 EV) in *.
+  pose proof (exec_cud lm s2 (ph - 1) (proj1 Hcl) ltac:(unfold ph; lia)) as E3.
+  cbn [row col sgr mk s2] in E3.
+  set (D := cud_evs r0 lm (ph - 1)) in *.
+  (* scrolling: the first padded frame, then everything stays inside the box *)
+  pose proof (first_box_scroll W H lm fill w h pl pt pr pb Hpl Hpt Hpr Hpb Hlm HW HH ls0 HLR0 s0 r0 top0 HD0 Hok0 Htop) as S1.
+  fold d pw ph in S1. fold (Pof ls0) in S1.
+  destruct (first_box lm fill w h pl pt pr pb Hpl Hpt Hpr Hpb ls0 HLR0 s0 r0 Hok0) as [E0 Hin0].
+  fold d pw ph in E0, Hin0. fold (Pof ls0) (PLof ls0) in E0, Hin0.
+  set (top1 := Z.max top0 (r0 + ph - H)) in *.
+  set (M := ([TCR] ++ cuu (ph - 1)) ++ old_later rest ++ cud (ph - 1)).
+  set (sP := mk (r0 + ph - 1) (lm + pw) adefault s0 (jl_evs lm r0 (PLof ls0))) in *.
+  assert (EB : old_body = Pof ls0 ++ M).
+  { unfold old_body, old_frame, M. rewrite <- !app_assoc. reflexivity. }
+  assert (EM : exec lm sP M = mk (r0 + ph - 1) lm adefault sP (goto_evs lm (r0 + ph - 1) (ph - 1) 0 ++ EV ++ D)).
+  { assert (X : exec lm s0 (Pof ls0 ++ M) = exec lm sP M) by (rewrite exec_app, E0; reflexivity).
+    rewrite <- X, <- EB. unfold old_body. rewrite exec_app, E1. fold s1. rewrite exec_app, E2. fold s2.
+    rewrite E3. unfold s2, s1, sP, EF. rewrite !mk_mk.
+    replace (r0 + (ph - 1)) with (r0 + ph - 1) by lia. f_equal.
+    rewrite <- !app_assoc. reflexivity. }
+  assert (HinM : forallb (ev_inside r0 lm ph pw) (goto_evs lm (r0 + ph - 1) (ph - 1) 0 ++ EV ++ D) = true).
+  { rewrite !forallb_app, !andb_true_iff. split; [|split].
+    - apply goto_inside; unfold ph, pw in *; lia.
+    - exact Hin2.
+    - unfold D, cud_evs. destruct (0 <? ph - 1) eqn:E0'; [|reflexivity].
+      cbn [forallb ev_inside]. rewrite !andb_true_iff, !Z.leb_le, !Z.ltb_lt.
+      apply Z.ltb_lt in E0'. unfold pw in *. lia. }
+  exists (jl_evs lm r0 (PLof ls0) ++ goto_evs lm (r0 + ph - 1) (ph - 1) 0 ++ EV ++ D), lm, adefault.
+  split; [|split; [|split]].
+  - rewrite EB, exec_app, E0. fold sP. rewrite EM. unfold sP. rewrite mk_mk. reflexivity.
+  - rewrite EB, srun_app, S1, E0. fold sP.
+    apply srun_noscroll. rewrite (exec_mk_evs _ _ _ _ _ _ _ EM). apply forallb_forall. intros e He.
+    eapply rect_win; [exact (proj1 (forallb_forall _ _) HinM e He)|unfold top1; lia|unfold top1; lia|lia|lia].
+  - rewrite forallb_app, Hin0. exact HinM.
+  - intros r c Hr Hc. rewrite Eref.
+    assert (Htail : covered D r c = false).
+    { unfold D, cud_evs, covered. destruct (0 <? ph - 1); reflexivity. }
+    unfold lastcov at 1. rewrite !lastcov_from_app.
+    rewrite (lastcov_from_none _ (goto_evs _ _ _ _)) by apply goto_nocover.
+    rewrite (lastcov_from_none _ D) by exact Htail.
+    rewrite (Hlast2 r c _ Hr Hc). unfold old_last.
+    destruct (lastopt rest); reflexivity.
+Qed.
+End Old.
+
+(** MAIN (old API, still image) *)
+Section OldStill.
+Variables W H lm : Z.
+Variable g : glyph.
+Variables w h pl pt pr pb : Z.
+Hypothesis Hpl : 0 <= pl.
+Hypothesis Hpt : 0 <= pt.
+Hypothesis Hpr : 0 <= pr.
+Hypothesis Hpb : 0 <= pb.
+Hypothesis Hlm : 0 <= lm.
+Hypothesis HW : lm + (pl + w + pr) <= W.
+Hypothesis HH : pt + h + pb <= H.
+Variable ls : list (list tok).
+Hypothesis HLR : LinesRect all_cells w h ls.
+Hypothesis HD : forall ln, In ln ls -> Downward ln.
+
+Theorem old_still_gen t0 top0 tty :
+  okat t0 (row t0) lm -> top0 <= row t0 < top0 + H ->
+  DrawFinal W H lm top0 t0 tty (pl + w + pr) (pt + h + pb)
+            (pad (Some g) (pl, pt, pr, pb) w (joinlf ls))
+            (old_still_stream tty (pad (Some g) (pl, pt, pr, pb) w (joinlf ls))).
+Proof.
+  intros Hok Htop. unfold old_still_stream. set (r0 := row t0) in *.
+  pose proof (lr_w _ _ _ _ HLR) as Hw.
+  assert (Hh : 0 < h).
+  { pose proof (lr_len _ _ _ _ HLR) as Hlen. pose proof (lr_ne _ _ _ _ HLR).
+    destruct ls; [congruence|cbn [length] in Hlen; lia]. }
+  apply wrap_old with (r0 := r0); try assumption; try lia.
+  intros s0 Hok0.
+  destruct (first_box lm (Some g) w h pl pt pr pb Hpl Hpt Hpr Hpb ls HLR s0 r0 Hok0) as [E0 Hin0].
+  destruct (first_box lm (Some g) w h pl pt pr pb Hpl Hpt Hpr Hpb ls HLR t0 r0 Hok) as [Er _].
+  eexists _, _, _. split; [exact E0|]. split; [|split; [exact Hin0|]].
+  - apply first_box_scroll; assumption.
+  - intros r c _ _. rewrite (exec_mk_evs _ _ _ _ _ _ _ Er). reflexivity.
+Qed.
+End OldStill.
+
+(** ** the old API's margins *)
+Lemma old_dims_spec W' H' ha va w h :
+  let '(l, t, r, b) := old_dims W' H' ha va w h in
+  0 <= l /\ 0 <= t /\ 0 <= r /\ 0 <= b /\ l + w + r = Z.max W' w /\ t + h + b = Z.max H' h.
+Proof.
+  unfold old_dims.
+  assert (A : forall M x (al : nat),
+             let '(p, q) := (if x <? M then match al with
+                                            | O => (0, M - x)
+                                            | S (S O) => (M - x, 0)
+                                            | _ => ((M - x) / 2, M - x - (M - x) / 2)
+                                            end else (0, 0)) in
+             0 <= p /\ 0 <= q /\ p + x + q = Z.max M x).
+  { intros M x al. destruct (x <? M) eqn:E.
+    - apply Z.ltb_lt in E.
+      assert (0 <= (M - x) / 2 <= M - x).
+      { split; [apply Z.div_pos; lia|]. apply Z.div_le_upper_bound; lia. }
+      destruct al as [|[|[|al]]]; lia.
+    - apply Z.ltb_ge in E. lia. }
+  pose proof (A W' w ha) as A1. pose proof (A H' h va) as A2.
+  destruct (if w <? W' then _ else _) as [l r].
+  destruct (if h <? H' then _ else _) as [t b]. lia.
+Qed.
+
+(** the two concrete clearings *)
+Lemma ClearBox_nil lm w h pl pt pr pb : ClearBox lm w h pl pt pr pb [].
+Proof.
+  intros s r c (Hcl & Hs & Hr & Hc). exists []. split; [|reflexivity].
+  cbn. rewrite <- Hs, <- Hr, <- Hc. symmetry. apply mk_id.
+Qed.
+
+Lemma ClearBox_kitty lm w h pl pt pr pb old :
+  0 < pt + h + pb -> 0 < pl + w + pr -> ClearBox lm w h pl pt pr pb (kitty_clear old).
+Proof.
+  intros Hph Hpw. destruct old; [|apply ClearBox_nil].
+  intros s r c ([Hg Hp] & Hs & Hr & Hc). eexists. split.
+  - cbn [kitty_clear exec fold_left]. unfold step. rewrite Hg. cbn [step_ground].
+    unfold emit, mk. cbn. rewrite Hs, Hr, Hc. reflexivity.
+  - cbn [forallb ev_inside]. rewrite !andb_true_iff, !Z.leb_le, !Z.ltb_lt. lia.
+Qed.
